@@ -185,18 +185,12 @@ def main(tier, seed, replay=None):
         rec['id'] = i
         recs.append(rec)
         meta[i] = (text, r[3])
-    tf = os.path.join(tmp_dir('c16'), 'trace.ndjson')
-    with open(tf, 'w') as f:
-        for rec in recs:
-            f.write(json.dumps(rec) + '\n')
-    cfg = 'SPECIFICATION Spec\nINVARIANT Verdict\n'
-    tr = run_tlc('Traversal', cfg='Traversal.cfg', cfg_text=cfg,
-                 modules={'Dummy_': '---- MODULE Dummy_ ----\n====\n'},
-                 workers=8, env={'TRACE_FILE': tf}, heap='6g')
-    rep.add_tlc(tr)
+    from common import validate_trace
+    tlines = validate_trace('Traversal', recs, 'c16', rep, chunk=2500,
+                            heap='4g')
     rep.mark('validated')
     verdicts = {}
-    for line in tr.lines:
+    for line in tlines:
         tid, clause, matched = json.loads(line)
         verdicts[tid] = (clause, matched)
     if len(verdicts) != len(recs):
